@@ -110,6 +110,11 @@ func runC01(cfg *config) *Report {
 		if i%5 == 0 {
 			o.mutateP = 100
 		}
+		if i%4 == 1 {
+			// not every file the Writer is handed has been through Create
+			o.unbuilt = true
+			o.maxItems = 2
+		}
 		f, err := genFile(r, o)
 		if err != nil {
 			rep.count("gen-rejected")
